@@ -41,7 +41,7 @@ func suite(quick bool) hlib.Suite {
 	return hlib.Suite{Name: fmt.Sprintf("gaussian/parameter-grid/quick=%v", quick), Run: func(r *hlib.Rec) {
 		for _, wn := range windows {
 			R, f := wn.repeat, wn.freq
-			if quick && R == 24*time.Hour {
+			if quick && R == 168*time.Hour {
 				continue
 			}
 			peaks := []time.Duration{0, R / 4, R / 2, 14 * R / 24, R - f}
